@@ -22,9 +22,9 @@ theorem indent_terminates (o : Opts) (s : Bytes) : (formatFuel (s.length + 1) o 
   formatFuel_isSome o s
 
 /-- the inner `loop:` alone: fuel `len(line) + len(rest of src) + 1` is enough -/
-theorem indent_scan_terminates (nB nP : Int) (last : UInt8) (out pend rest tail : Bytes) :
-    (scan (rest.length + tail.length + 1) nB nP last out pend rest tail).isSome :=
-  scan_isSome _ _ _ _ _ _ _ _ (Nat.lt_succ_self _)
+theorem indent_scan_terminates (nB nP : Int) (last : UInt8) (clo : Bool) (out pend rest tail : Bytes) :
+    (scan (rest.length + tail.length + 1) nB nP last clo out pend rest tail).isSome :=
+  scan_isSome _ _ _ _ _ _ _ _ _ (Nat.lt_succ_self _)
 
 /-- more fuel changes nothing: `format` is the value for every sufficient fuel -/
 theorem indent_format_eq (o : Opts) (s out : Bytes)
@@ -36,10 +36,10 @@ theorem indent_format_eq (o : Opts) (s out : Bytes)
 /-- The inner loop conserves bytes: what it appended to dst, then the final `line`, then the
 rest of the source, is exactly what it was given (nothing dropped, duplicated or reordered —
 the unrepaired code violated this by re-appending a stale slice). -/
-theorem indent_scan_conserves (fuel : Nat) (nB nP : Int) (last : UInt8) (line tail : Bytes) (r : ScanOut)
-    (h : scan fuel nB nP last [] [] line tail = some r) :
+theorem indent_scan_conserves (fuel : Nat) (nB nP : Int) (last : UInt8) (clo : Bool) (line tail : Bytes) (r : ScanOut)
+    (h : scan fuel nB nP last clo [] [] line tail = some r) :
     r.out ++ (r.line ++ r.tail) = line ++ tail := by
-  have := (scan_spec _ _ _ _ _ _ _ _ _ h).bytes
+  have := (scan_spec _ _ _ _ _ _ _ _ _ _ h).bytes
   simpa using this
 
 /-- For EVERY input (lexically closed or not) and every option: the output, observed through
